@@ -130,7 +130,7 @@ def _inits(N, big):
 def cases(group):
     for c in _cases(group):
         yield c
-        if not group["label"].startswith("L") and c["n"] >= 2 and c["init"] in (0, "random"):
+        if not group["label"].startswith("L") and c["n"] >= 2 and (c["init"] == 0 or c["init"] == "random"):
             c2 = dict(c)
             c2["prefit"] = True  # the same fit on a USED selector (fitted before on other data of the same shape)
             yield c2
@@ -208,6 +208,11 @@ def check(case):
     if exc is not None:  # every configuration of this alphabet is admissible
         return r.fail("crash:%s" % type(exc).__name__, repr(exc))
 
+    try:
+        s.get_support(indices=True)  # a read-only accessor, called first on purpose
+        s.get_support()
+    except Exception as e:
+        return r.fail("get_support-crash:%s" % type(e).__name__, repr(e))
     idx = [int(i) for i in np.asarray(s.selected_idx_)]
     if len(idx) != n:
         return r.skip("selection shorter than requested (C01's domain)")
